@@ -1,7 +1,7 @@
 (* Correspondence checker for the multiplexed operators: the slot-level machine bm (den_pipe p)
    is run on the trace the implementation was run on; outputs are compared step by step. *)
 From Coq Require Import List ZArith Bool.
-From RxVerif Require Import Base.Corr Mux.Val Mux.Sim Mux.SimExt Mux.Ops Mux.Syntax.
+From RxVerif Require Import Base.Corr Mux.Val Mux.Sim Mux.SimExt Mux.Ops Mux.Syntax Mux.Plain.
 Import ListNotations.
 
 Inductive oev :=
@@ -26,11 +26,21 @@ Definition oev_same (a b : oev) : bool :=
 Inductive muxcase :=
 | MCRaised
 | MCSkip           (* pipeline contains an operator without Coq model: oracle only *)
-| MC (p : list op) (t : list iev) (out : list (list oev)).
+| MC (p : list op) (t : list iev) (out : list (list oev))
+(* the same pipeline on plain observables: (items, what the plain run emitted before completing) *)
+| MCPlain (p : list op) (runs : list (list val * list val))
+| MCAnd (a b : muxcase).
 Definition mux_model (p : list op) (t : list iev) : list (list oev) := map (map norm) (run_pipe p t).
-Definition mux_check (c : muxcase) : bool :=
+Definition plain_agrees (p : list op) (r : list val * list val) : bool :=
+  match plain_pipe p (fst r) with
+  | Some ys => list_eqb val_same ys (snd r)
+  | None => true          (* outside the modelled plain fragment, or the model says on_error *)
+  end.
+Fixpoint mux_check (c : muxcase) : bool :=
   match c with
   | MCRaised => false
   | MCSkip => true
   | MC p t out => list_eqb (list_eqb oev_same) (mux_model p t) out
+  | MCPlain p runs => forallb (plain_agrees p) runs
+  | MCAnd a b => mux_check a && mux_check b
   end.
